@@ -11,10 +11,15 @@ MUTANTS = [
     ('fields not reset', [(M + 'compute_near_field', "        self.e_field = []\n", "")], ['FRESH', 'fields']),
     ('H scale without 4 pi', [(M + 'compute_near_field', "f_h = f_e / s0 / (4*np.pi)", "f_h = f_e / s0")], ['field-scaling']),
     ('H image not signed', [(M + 'compute_near_field', "kf += np.sum ((v35_h * curr) [cond], axis = 0) * k", "kf += np.sum ((v35_h * curr) [cond], axis = 0)")], ['image-loop']),
+    ('curl term with the wrong sign', [('mininec.Mininec.compute_near_field', "            h [1]  = kf [0][0][2] - kf [1][0][2]\n", "            h [1]  = kf [1][0][2] - kf [0][0][2]\n")], ['curl']),
+    ('curl term reads the wrong component', [('mininec.Mininec.compute_near_field', "            h [0]  = kf [1][1][2] - kf [0][1][2]\n", "            h [0]  = kf [1][1][0] - kf [0][1][0]\n")], ['curl']),
+    ('curl with the displaced points in the other order', [('mininec.Mininec.compute_near_field', "for j8 in (-1, 1)", "for j8 in (1, -1)")], ['curl']),
+    ('curl term loses its imaginary part', [('mininec.Mininec.compute_near_field', "                     + (kf [1][2][0].imag - kf [0][2][0].imag) * 1j\n", "                     + (kf [1][2][0].imag - kf [0][2][0].imag)\n")], ['curl']),
 ]
 REFACTORS = [
     ('terms reordered', [(M + 'nf_helper', "return (v * d1 [pidx] * v6 + u * d2 [pidx] * v7) * kvec", "return kvec * (v7 * u * d2 [pidx] + v6 * d1 [pidx] * v)")]),
     ('rename direction locals', [(M + 'nf_helper', "        d1          = dir [:, 0, :]\n        d2          = dir [:, 1, :]", "        dneg        = dir [:, 0, :]\n        dpos        = dir [:, 1, :]"),
                                   (M + 'nf_helper', "return (v * d1 [pidx] * v6 + u * d2 [pidx] * v7) * kvec", "return (v * dneg [pidx] * v6 + u * dpos [pidx] * v7) * kvec")]),
     ('f_e via temporary', [(M + 'compute_near_field', "f_e = np.sqrt (pwr / self.power)", "ratio = pwr / self.power\n        f_e = np.sqrt (ratio)")]),
+    ('curl terms as plain complex differences', [('mininec.Mininec.compute_near_field', "            h [1] += (  kf [1][2][0].real - kf [0][2][0].real\n                     + (kf [1][2][0].imag - kf [0][2][0].imag) * 1j\n                     )\n", "            h [1] += kf [1][2][0] - kf [0][2][0]\n")]),
 ]
